@@ -10,3 +10,9 @@ import "go/ast"
 func hasTypeParams(ft *ast.FuncType) bool {
 	return false
 }
+
+// isGenericType reports whether the type declaration has type parameters,
+// which do not exist before go1.18.
+func isGenericType(ts *ast.TypeSpec) bool {
+	return false
+}
